@@ -156,14 +156,45 @@ Definition check_recv (k : rcase) : list (N * N) :=
      | Some i => [(2, i)] | None => [] end
    else []).
 
-(* ---------------- both ---------------- *)
+(* ---------------- send-loop cases (StdNetBind.send under an injected oracle) ---------------- *)
 
-Inductive case := SendCase (k : scase) | RecvCase (k : rcase).
+(* messages are their indices 0..L-1; oracle entry 0 = the call fails, k > 0 =
+   the call accepts k messages; observed: indices in the order the writer
+   accepted them, error flag (2 = the loop panicked) *)
+Record lcase := { lc_len : nat; lc_oracle : list wres; lc_obs : list N; lc_err : N }.
+Definition mk_loop (hdr oracle obs : list int) : lcase :=
+  {| lc_len := N.to_nat (nth_int hdr 0);
+     lc_oracle := map (fun x => if n_of_int x =? 0 then WErr else WOk (N.to_nat (n_of_int x))) oracle;
+     lc_obs := ns_of_ints obs; lc_err := nth_int hdr 1 |}.
+
+Fixpoint iota (n : nat) (from : N) : list N :=
+  match n with O => [] | S k => from :: iota k (from + 1) end.
+Definition all_accept (o : list wres) : bool :=
+  forallb (fun r => match r with WOk k => Nat.ltb 0 k | WErr => false end) o.
+
+(* kind 1: 600000 = error flag differs, 600001 = transmitted sequence differs;
+   kind 2 (oracle without failures, long enough): 700000 = an error/panic was
+   reported, else the first position where the transmitted sequence is not 0,1,2,... each once *)
+Definition check_loop (k : lcase) : list (N * N) :=
+  let msgs := iota (lc_len k) 0 in
+  let '(t, e) := send_loop (S (lc_len k)) msgs 0 (lc_oracle k) in
+  (if negb ((if e then 1 else 0) =? lc_err k) then [(1, 600000)]
+   else if list_eqb t (lc_obs k) then [] else [(1, 600001)]) ++
+  (if all_accept (lc_oracle k) && Nat.leb (lc_len k) (length (lc_oracle k)) then
+     if negb (lc_err k =? 0) then [(2, 700000)]
+     else match first_diff (map (fun x => [x]) (lc_obs k)) (map (fun x => [x]) msgs) 0 with
+          | Some i => [(2, i)] | None => [] end
+   else []).
+
+(* ---------------- all ---------------- *)
+
+Inductive case := SendCase (k : scase) | RecvCase (k : rcase) | LoopCase (k : lcase).
 Definition Snd hdr src bufs obs := SendCase (mk_send hdr src bufs obs).
 Definition Rcv hdr slots expect obs := RecvCase (mk_recv hdr slots expect obs).
+Definition Lop hdr oracle obs := LoopCase (mk_loop hdr oracle obs).
 
 Definition check_case (k : case) : list (N * N) :=
-  match k with SendCase s => check_send s | RecvCase r => check_recv r end.
+  match k with SendCase s => check_send s | RecvCase r => check_recv r | LoopCase l => check_loop l end.
 
 Fixpoint check_cases (ks : list case) (idx : N) : list (N * N * N) :=
   match ks with
@@ -232,7 +263,12 @@ Definition stats_case (acc : list N) (k : case) : list N :=
       let '(_, n, e) := split (rc_in r) (rc_first r) in
       let acc2 := if e =? 1 then bump acc1 13 else acc1 in
       set_nth acc2 15 (nth 15 acc2 0 + N.of_nat n)
+  | LoopCase l =>
+      (* 17: send-loop cases; 18: partial writes in them; 19: injected failures *)
+      let parts := N.of_nat (length (filter (fun r => match r with WOk k => Nat.ltb k (lc_len l) | WErr => false end) (lc_oracle l))) in
+      let errs := N.of_nat (length (filter (fun r => match r with WErr => true | _ => false end) (lc_oracle l))) in
+      set_nth (set_nth (bump acc 17) 18 (nth 18 acc 0 + parts)) 19 (nth 19 acc 0 + errs)
   end.
 
 Definition stats (ks : list case) : list N :=
-  fold_left stats_case ks [0;0;0;0;0;0;0;0;0;0;0;0;0;0;0;0;0].
+  fold_left stats_case ks [0;0;0;0;0;0;0;0;0;0;0;0;0;0;0;0;0;0;0;0].
